@@ -38,7 +38,7 @@ PROPS = {
     },
     "C07": {
         "extractors": ["ladders", "opcodes", "flags", "constants"],
-        "theorems": ["ChiaModel.C07.simple_generator_rules", "ChiaModel.C07.legacy_cost", "ChiaModel.C04.limit_exact", "ChiaModel.C02.accepted_invariants"],
+        "theorems": ["ChiaModel.C07.simple_generator_rules", "ChiaModel.C07.legacy_cost", "ChiaModel.C04.limit_exact", "ChiaModel.C04.native_limit_exact", "ChiaModel.C04.legacy_limit_exact", "ChiaModel.C02.accepted_invariants"],
         "open": ["C07_legacy_accepts / C07_native_accepts (DESIGN 6): legacy accepts => native accepts with the same conditions and no larger cost, under EvalContract + RomSpec + RomCostDominates - models of both paths exist and are compared with the code; the theorem is not proved yet",
                  "back-reference deserialisation is taken from the harness (decoded program on the case line) until the C17 model is merged"],
         "trivial": r"^L=REJECT[^|]*\|\| N=REJECT",
@@ -50,7 +50,7 @@ PROPS = {
     },
     "C08": {
         "extractors": ["ladders", "opcodes", "flags", "constants"],
-        "theorems": ["ChiaModel.C08.generator_length", "ChiaModel.C08.base_cost_offset", "ChiaModel.C11.clvmBytesLen_ok", "ChiaModel.C04.limit_exact"],
+        "theorems": ["ChiaModel.C08.generator_length", "ChiaModel.C08.base_cost_offset", "ChiaModel.C11.clvmBytesLen_ok", "ChiaModel.C04.limit_exact", "ChiaModel.C04.runSpendbundle_limit_exact"],
         "gen_theorems": ["ChiaModel.C08.generator_length", "ChiaModel.C08.base_cost_offset", "ChiaModel.C11.clvmBytesLen_ok"],
         "open": ["C08_same_conditions and the execution-cost part of C08_cost_offset (bundle path = native path on the built generator, up to the quote's 20 and the visitor) - currently checked by correspondence on every case"],
         "trivial": r"^D=REJECT",
@@ -291,7 +291,7 @@ PROPS = {
     "C04": {
         "extractors": ["ladders", "opcodes", "flags", "constants"],
         "harness": "C04",
-        "theorems": ["ChiaModel.C04.limit_exact", "ChiaModel.C04.cost_le_limit", "ChiaModel.C04.cost_is_table_sum",
+        "theorems": ["ChiaModel.C04.limit_exact", "ChiaModel.C04.native_limit_exact", "ChiaModel.C04.legacy_limit_exact", "ChiaModel.C04.runSpendbundle_limit_exact", "ChiaModel.C04.cost_le_limit", "ChiaModel.C04.cost_is_table_sum",
                      "ChiaModel.C04.table_values", "ChiaModel.C04.preCharge_table", "ChiaModel.C04.unknown_cost_closed_form",
                      "ChiaModel.C04.unknown_cost_fn"],
         "gen_theorems": ["ChiaModel.C04.table_values", "ChiaModel.C04.unknown_cost_closed_form", "ChiaModel.C04.unknown_cost_fn"],
